@@ -1,6 +1,6 @@
 /-
-The GIVEN API of the second part of the translation of cty/gocty/out.go (slice d18b): the SHAPE CHECKS of the
-collection and structure decoders `fromCtyList`, `fromCtySet`, `fromCtyMap`, `fromCtyTuple`
+The GIVEN API of the second part of the translation of cty/gocty/out.go (slice d18b): `fromCtyValue` and the SHAPE CHECKS
+of the collection and structure decoders `fromCtyList`, `fromCtySet`, `fromCtyMap`, `fromCtyTuple`, `fromCtyObject`
 (`extract/translate_gocty_shape.go` → `Generated/GoctyShapeFns.lean`).  Read together with `CtyModel/GoctyGo.lean`.
 
 What is translated is the code AROUND the element loops: the dispatch on the target's kind, the null
@@ -67,6 +67,46 @@ def typeKey : GoTy → Res GoTy
 
 /-- `target.Set(reflect.Zero(target.Type()))` -/
 def setZero (T : GoTy) : Res GoVal := .ok (zeroVal T)
+
+/-! ### fromCtyValue: `fromCtyPopulatePtr`, the type tests, writing a `cty.Value`
+
+`fromCtyPopulatePtr(target, decodingNull)` walks down the pointers of the target, allocating the nil ones, and returns the
+pointee it stops at: with `decodingNull = false` the first non-pointer (`T.base`); with `true` the LAST pointer (whose
+pointee is not a pointer) if there is one, else the target itself.  (Its interface branch can not arise: a `GoTy` has no
+interface-typed slots.  The target is a settable zero: every pointer on the way is nil and gets allocated.)  The code then
+works on that pointee; `populateLift` rebuilds what the original target holds from what was written there. -/
+
+/-- the type of `fromCtyPopulatePtr(target, decodingNull)` -/
+def populateTy (T : GoTy) (decodingNull : Bool) : GoTy :=
+  if decodingNull then (if T.depth = 0 then T else .ptr T.base) else T.base
+
+/-- the pointers `fromCtyPopulatePtr(target, decodingNull)` allocated around the pointee it returns -/
+def populateLift (T : GoTy) (decodingNull : Bool) : GoVal → GoVal :=
+  if decodingNull then wrapPtr (T.depth - 1) else wrapPtr T.depth
+
+/-- an outcome of an operation on the pointee, as an outcome for the original target -/
+def liftRes (f : GoVal → GoVal) (r : Res GoVal) : Res GoVal := mapRes f r
+
+/-- `deepTarget.Set(reflect.ValueOf(val))` for a `cty.Value`: assignable only to `cty.Value` -/
+def setCval (T : GoTy) (v : Value) : Res GoVal :=
+  if isNamed T .valueType then .ok (.cval v) else .panic "reflect.Set: value of type cty.Value is not assignable"
+
+/-- `ty == cty.Bool` …: `==` on `cty.Type` values one of which is a primitive type -/
+def tyIs : Ty → Ty → Bool
+  | .bool, .bool => true
+  | .number, .number => true
+  | .string, .string => true
+  | _, _ => false
+
+def isListType : Ty → Bool | .list _ => true | _ => false
+def isMapType : Ty → Bool | .map _ => true | _ => false
+def isSetType : Ty → Bool | .set _ => true | _ => false
+def isObjectType : Ty → Bool | .object _ _ _ => true | _ => false
+def isTupleType : Ty → Bool | .tuple _ => true | _ => false
+def isCapsuleType : Ty → Bool | .capsule _ => true | _ => false
+
+/-- `fromCtyCapsule` is NOT translated: the Go payload of a capsule is opaque to the model -/
+def fromCtyCapsule (v : Value) (T : GoTy) : Res GoVal := .unmodelled
 
 /-! ### the pinned regions: the `ForEachElement` loops -/
 
